@@ -16,54 +16,40 @@ import YaegiVerif.Spec.GoTyping
 namespace YaegiVerif.Typecheck
 open Spec
 
-/-- classes of check sites on which the unchanged interpreter and the Go specification differ -/
+/-- classes of check sites on which the interpreter (as repaired up to 79ed061) and the Go specification still differ.
+    The classes of the repaired findings F12-3, F12-7, F12-8, F12-9, F12-10, F12-12 and of the repaired parts of F12-11
+    (logical operands, send, nil / true / false as values, constants in returns / comparisons / indexes, zero divisors,
+    non-indexable operands, calls without result, float division by zero, receive retyping) are gone: a site of one of
+    those forms that differs is labelled `other` and is a violation -/
 inductive Lax where
-  | logicalOperandsUnchecked        -- operands of && / || are never checked (cfg.go landExpr / lorExpr)
-  | sendValueUnchecked              -- the value of `c <- v` is never checked
-  | sendOnReceiveOnly               -- send on a receive-only channel accepted
-  | sameReflectType                 -- distinct Go types with the same reflect.Type (defined type vs underlying, struct S0 vs S1, []N vs []int, …)
-  | interfaceToConcrete             -- an interface value used where a concrete type with (at least) its methods is required (itype.equals)
-  | constantUnchecked               -- a numeric constant that the target type cannot represent is accepted (comparison whose conversion failed, return)
-  | booleanLiteralAsValue           -- true / false accepted as a value of a non-boolean type
-  | nilAsValue                      -- nil accepted (or a Go panic) where the type has no nil value
-  | constantToInterface             -- a constant accepted as a value of a non-empty interface type
-  | destinationTypePropagated       -- an operator node takes the type of the enclosing declaration / assignment / return: the assignment check is bypassed
-  | indexNonIndexable               -- index expression on a type that cannot be indexed: accepted or Go panic
-  | constantIndexUnchecked          -- negative (or out-of-range for a zero-length array) constant index accepted
-  | floatDivisionByConstantZero     -- x / 0 with floating-point or complex x rejected (Go accepts)
-  | typedConstantOperand            -- a typed constant zero divisor / negative shift count / negative index is not seen
-  | opAssignConstantZeroDivisor     -- `x /= 0`, `x %= 0` accepted
-  | channelDirectionComparison      -- chan T compared with <-chan T / chan<- T rejected (Go accepts)
-  | callWithoutSingleResult         -- a call without results used as a value
-  | untypedOperands                 -- two untyped operands, an untyped shifted operand: outside what the fragment describes
-  | constantDivisorNotNumeric       -- string / boolean / nil divisor: Go panic in zeroConst
-  | receiveRetypesDestination       -- `var v T = <-c`: the variable takes the channel's element type instead of T (later uses of v as a T are rejected)
-  | interfaceOperand                -- an interface operand "equals" any type with its methods: arithmetic / comparison accepted
+  | sameReflectType                 -- F12-5: distinct Go types with the same reflect.Type (defined type vs underlying, struct S0 vs S1, []N vs []int, …)
+  | interfaceToConcrete             -- F12-6: an interface value used where a concrete type with (at least) its methods is required (itype.equals)
+  | interfaceOperand                -- F12-6: an interface operand "equals" any type with its methods: arithmetic / comparison accepted
+  | destinationTypePropagated       -- F12-4: an operator node takes the type of the enclosing declaration / assignment / return: the assignment check is bypassed
+  | channelDirectionComparison      -- F12-11 (open part): chan T compared with <-chan T / chan<- T rejected (Go accepts)
+  | untypedOperands                 -- F12-15: two untyped operands, an untyped shifted operand: outside what the fragment describes
+  | typedConstantOperand            -- F12-18: the value of a typed constant shift count is not examined (`a << int(-1)`)
+  | constantIndexZeroLengthArray    -- F12-18: a constant index into an array of length 0 is not checked (`max < 1`)
+  | nilOperand                      -- F12-17: nil as the operand of a conversion, a type assertion, a condition, `v := nil`, an operator: Go panic
+  | booleanLiteralShifted           -- F12-17: true / false as the shifted operand: Go panic
+  | callValueInConversion           -- F12-21: a call without exactly one result as the operand of a conversion (callValue is skipped)
+  | comparisonOperandOfLogical      -- F12-19: `(a < b) && c` with c of a defined boolean type has type bool (Go: the defined type)
   | other
   deriving DecidableEq, Repr, Inhabited
 
 def Lax.name : Lax → String
-  | .logicalOperandsUnchecked => "logical-operands-unchecked"
-  | .sendValueUnchecked => "send-value-unchecked"
-  | .sendOnReceiveOnly => "send-on-receive-only"
   | .sameReflectType => "same-reflect-type"
   | .interfaceToConcrete => "interface-to-concrete"
-  | .constantUnchecked => "constant-unchecked"
-  | .booleanLiteralAsValue => "boolean-literal-as-value"
-  | .nilAsValue => "nil-as-value"
-  | .constantToInterface => "constant-to-interface"
-  | .destinationTypePropagated => "destination-type-propagated"
-  | .indexNonIndexable => "index-non-indexable"
-  | .constantIndexUnchecked => "constant-index-unchecked"
-  | .floatDivisionByConstantZero => "float-division-by-constant-zero"
-  | .typedConstantOperand => "typed-constant-operand"
-  | .opAssignConstantZeroDivisor => "op-assign-constant-zero-divisor"
-  | .channelDirectionComparison => "channel-direction-comparison"
-  | .callWithoutSingleResult => "call-without-single-result"
-  | .untypedOperands => "untyped-operands"
-  | .constantDivisorNotNumeric => "constant-divisor-not-numeric"
-  | .receiveRetypesDestination => "receive-retypes-destination"
   | .interfaceOperand => "interface-operand"
+  | .destinationTypePropagated => "destination-type-propagated"
+  | .channelDirectionComparison => "channel-direction-comparison"
+  | .untypedOperands => "untyped-operands"
+  | .typedConstantOperand => "typed-constant-operand"
+  | .constantIndexZeroLengthArray => "constant-index-zero-length-array"
+  | .nilOperand => "nil-operand"
+  | .booleanLiteralShifted => "boolean-literal-shifted"
+  | .callValueInConversion => "call-value-in-conversion"
+  | .comparisonOperandOfLogical => "comparison-operand-of-logical"
   | .other => "other"
 
 /-! ### syntactic form of an operand -/
@@ -104,14 +90,9 @@ def constGap (x : Opnd) (t : Ty) : Bool :=
   | .const (.float v false), .s st => inBitLenGap st.under.kind v
   | _, _ => false
 
-/-- class of an assignment-like site (value `x` against type `t`) -/
+/-- class of an assignment-like site (value `x` against type `t`): since 385eb77 / 03fb34b only typed operands differ -/
 def classifyAssign (x : Opnd) (t : Ty) : Lax :=
   match x.sh with
-  | .nil => .nilAsValue
-  | .bl _ => (match t with | .iface _ _ => .constantToInterface | _ => .booleanLiteralAsValue)
-  | .uc _ _ => (match t with
-      | .iface _ _ => .constantToInterface
-      | _ => .constantUnchecked)
   | .tv v | .tc v _ =>
     if v.isIface && !t.isIface then .interfaceToConcrete
     else if sameReflect v t then .sameReflectType
@@ -122,10 +103,9 @@ def classifyAssign (x : Opnd) (t : Ty) : Lax :=
 
 def classifyPair (x y : Opnd) : Lax :=
   match x.sh, y.sh with
-  | .nil, _ | _, .nil => .nilAsValue
-  | .bl _, _ | _, .bl _ => .booleanLiteralAsValue
-  | .uc _ _, .tv t | .uc _ _, .tc t _ => if t.isIface then .interfaceOperand else .constantUnchecked
-  | .tv t, .uc _ _ | .tc t _, .uc _ _ => if t.isIface then .interfaceOperand else .constantUnchecked
+  | .uc _ _, .tv t | .uc _ _, .tc t _ => if t.isIface then .interfaceOperand else .other
+  | .tv t, .uc _ _ | .tc t _, .uc _ _ => if t.isIface then .interfaceOperand else .other
+  | .bl _, .tv t | .tv t, .bl _ => if t.isIface then .interfaceOperand else .other
   | .tv a, .tv b | .tv a, .tc b _ | .tc a _, .tv b | .tc a _, .tc b _ =>
     if a.isIface || b.isIface then .interfaceOperand
     else if sameReflect a b then .sameReflectType
@@ -170,67 +150,52 @@ def isZeroLit (y : Opnd) : Bool :=
 
 def classifyBin (op : BinOp) (z : Option Ty) (x y : Opnd) : Lax :=
   match op with
-  | .land | .lor => .logicalOperandsUnchecked
+  | .land | .lor =>
+    (match x.sh, y.sh with
+     | .ub, .tv _ | .tv _, .ub | .ub, .tc _ _ | .tc _ _, .ub => .comparisonOperandOfLogical
+     | _, _ => classifyPair x y)
   | _ =>
-    if (op == .quo || op == .rem) && isZeroLit y then .floatDivisionByConstantZero
-    else if (op == .quo || op == .rem) && (match y.sh with | .uc _ .str => true | .bl _ => true | .nil => true | _ => false) then .constantDivisorNotNumeric
-    else if (op == .quo || op == .rem) && (match y.sh with | .tc _ (some 0) => true | _ => false) then .typedConstantOperand
-    else match x.sh, y.sh with
-      | .tv a, .tv b | .tv a, .tc b _ | .tc a _, .tv b =>
-        if a == b && z.isSome then .destinationTypePropagated else classifyPair x y
-      | .tv a, .uc _ _ | .uc _ _, .tv a =>
-        if z.isSome && !(constGap x a || constGap y a) && !a.isIface then .destinationTypePropagated else classifyPair x y
-      | _, _ => classifyPair x y
+    match x.sh, y.sh with
+    | .tv a, .tv b | .tv a, .tc b _ | .tc a _, .tv b =>
+      if a == b && z.isSome then .destinationTypePropagated else classifyPair x y
+    | .tv a, .uc _ _ | .uc _ _, .tv a =>
+      if z.isSome && !a.isIface then .destinationTypePropagated else classifyPair x y
+    | _, _ => classifyPair x y
 
 def classifyShift (x y : Opnd) : Lax :=
   match x.sh, y.sh with
   | .uc _ _, _ => .untypedOperands
-  | .bl _, _ | _, .bl _ => .booleanLiteralAsValue
-  | .nil, _ | _, .nil => .nilAsValue
+  | .bl _, _ => .booleanLiteralShifted
   | _, .tc _ _ => .typedConstantOperand
   | _, _ => .other
 
 def classifyIndex (a i : Opnd) : Lax :=
   match a.ty with
-  | .slice _ | .array _ _ =>
-    (match i.sh with
-     | .uc _ _ => .constantIndexUnchecked
-     | .bl _ => .booleanLiteralAsValue
-     | .nil => .nilAsValue
-     | .tc _ _ => .typedConstantOperand
-     | _ => .other)
   | .map k _ => classifyAssign i (.s k)
-  | .s t =>
-    if t.under == .string then
-      (match i.sh with
-       | .uc _ _ => .constantIndexUnchecked
-       | .bl _ => .booleanLiteralAsValue
-       | .nil => .nilAsValue
-       | .tc _ _ => .typedConstantOperand
-       | _ => .other)
-    else .indexNonIndexable
-  | .nil => .nilAsValue
-  | _ => .indexNonIndexable
+  | .array 0 _ =>
+    (match i.sh with
+     | .uc _ _ | .tc _ _ => .constantIndexZeroLengthArray
+     | _ => .other)
+  | _ => .other
 
 /-- since the repair of F11 (the if/for cases leave after recording the error) the only condition on which the
     two sides differ is `nil` (`cond_correct`); any other difference belongs to no listed class -/
 def classifyCond (c : Opnd) : Lax :=
   match c.sh with
-  | .nil => .nilAsValue
+  | .nil => .nilOperand
   | _ => .other
 
 /-- `assert_agree`: the only operand on which the two sides differ is `nil` -/
 def classifyAssert (x : Opnd) : Lax :=
   match x.sh with
-  | .nil => .nilAsValue
+  | .nil => .nilOperand
   | _ => .other
 
 def classifyConv (t : Ty) (x : Opnd) : Lax :=
   match x.sh with
-  | .nil => .nilAsValue
-  | .tc _ _ => .typedConstantOperand
+  | .nil => .nilOperand
   | .tv v => if v.isIface && !t.isIface then .interfaceToConcrete else .sameReflectType
-  | _ => classifyAssign x t
+  | _ => .other
 
 def firstSome {α β : Type} (f : α → Option β) : List α → Option β
   | [] => none
@@ -254,79 +219,73 @@ def classifyRet (T : TcFacts) (results : List STy) (vals : List (Shape × Opnd))
        | .unary | .arith .add | .arith .sub | .arith .mul | .arith .quo | .arith .and | .arith .or | .arith .xor | .arith .andnot =>
          if assignableG x (.s r) then go rs rest else .destinationTypePropagated
        | _ =>
-         if (do let b ← assignableToY T.ops x.ty (.s r) x.rv; if b then Res.ok () else .err) = (if assignableG x (.s r) then Res.ok () else .err)
+         if retValsY T [r] [(sh, x)] = (if assignableG x (.s r) then Res.ok () else .err)
          then go rs rest
-         else (match x.sh with
-           | .uc _ _ => .constantUnchecked
-           | _ => classifyAssign x (.s r)))
+         else classifyAssign x (.s r))
     | _, _ => .other
   go results vals
 
 def classifyAssignStmt (sh : Shape) (t : Ty) (x : Opnd) : Lax :=
   match sh with
   | .plain | .arith .land | .arith .lor => classifyAssign x t
-  | .recv => if assignableG x t && x.ty != t then .receiveRetypesDestination
-             else if assignableG x t then classifyAssign x t else .destinationTypePropagated
   | _ => if assignableG x t then classifyAssign x t else .destinationTypePropagated
 
-def classifySend (c _v : Opnd) : Lax :=
+/-- since 82e65a0 a send is an assignment of the value to the element type -/
+def classifySend (c v : Opnd) : Lax :=
   match c.ty with
-  | .chan .recv _ => .sendOnReceiveOnly
-  | .chan _ _ => .sendValueUnchecked
-  | .nil => .nilAsValue
+  | .chan _ t => classifyAssign v (.s t)
   | _ => .other
 
 def classifyOpAssign (op : BinOp) (t : Ty) (x : Opnd) : Lax :=
-  if (op == .quo || op == .rem) && (isZeroLit x || (match x.sh with | .tc _ (some 0) => true | _ => false)) then .opAssignConstantZeroDivisor
-  else classifyBin op none ⟨t, .none⟩ x
+  classifyBin op none ⟨t, .none⟩ x
 
 mutual
   /-- the walk over an expression (same shape as `checkE`) -/
-  def domE (T : TcFacts) (env : Env) (z : Option Ty) : Expr → DR Opnd
+  def domE (T : TcFacts) (env : Env) (z : Option Ty) (cv : Bool) : Expr → DR Opnd
     | .var i => match env.vars[i]? with
       | some t => .ok ⟨t, .none⟩
       | none => .stop
     | .lit u v f => .ok (litOpnd u v f)
     | .nil => .ok ⟨.nil, .none⟩
     | .un op e => do
-      let x ← domE T env (if op.propagates then z else none) e
+      let x ← domE T env (if op.propagates then z else none) false e
       site (unY T op x) (unG op x) .other
     | .recv e => do
-      let x ← domE T env none e
-      site (recvY T x) (recvG x) (if x.ty.isNil then .nilAsValue else .other)
+      let x ← domE T env none false e
+      site (recvY T x) (recvG x) .other
     | .bin op a b => do
       let zc := if op.propagates then z else none
-      let x ← domE T env zc a
-      let y ← domE T env zc b
+      let x ← domE T env zc false a
+      let y ← domE T env zc false b
       site (binY T op zc x y) (binG op zc x y) (classifyBin op zc x y)
     | .cmp op a b => do
-      let x ← domE T env none a
-      let y ← domE T env none b
+      let x ← domE T env none false a
+      let y ← domE T env none false b
       site (cmpY T op x y) (cmpG op x y) (classifyPair x y)
     | .shift op a b => do
-      let x ← domE T env z a
-      let y ← domE T env z b
+      let x ← domE T env z false a
+      let y ← domE T env z false b
       site (shiftY T op x y) (shiftG op x y) (classifyShift x y)
     | .call f args => match env.funcs[f]? with
       | none => .stop
       | some sg => do
         let xs ← domArgs T env args
         let _ ← site (callY T sg.params (xs.map (·.2))) (callG sg.params (xs.map (·.2))) (classifyArgs T sg.params (xs.map (·.2)))
-        site (callValueY T sg.rets) (callValueG sg.rets) .callWithoutSingleResult
+        site (callValueY T cv sg.rets) (callValueG cv sg.rets) (if cv then .callValueInConversion else .other)
     | .conv t e => do
-      let x ← domE T env none e
+      let x ← domE T env none true e
       site (convY T t x) (convG t x) (classifyConv t x)
     | .assert t e => do
-      let x ← domE T env none e
+      let x ← domE T env none false e
       site (assertY T t x) (assertG t x) (classifyAssert x)
     | .index a i => do
-      let x ← domE T env none a
-      let y ← domE T env none i
+      let x ← domE T env none false a
+      let y ← domE T env none false i
       site (indexY T x y) (indexG x y) (classifyIndex x y)
   def domArgs (T : TcFacts) (env : Env) : Args → DR (List (Shape × Opnd))
     | .nil => .ok []
     | .cons e rest => do
-      let x ← domE T env none e
+      let x ← domE T env none false e
       let xs ← domArgs T env rest
       .ok ((shapeOf e x, x) :: xs)
 end
@@ -334,34 +293,34 @@ end
 mutual
   def domS (T : TcFacts) (env : Env) : Stmt → DR (List Ty)
     | .decl t e => do
-      let x ← domE T env (zoneOf t) e
+      let x ← domE T env (zoneOf t) false e
       let t' ← site (assignY T true (shapeOf e x) t x) (assignG true (shapeOf e x) t x) (classifyAssignStmt (shapeOf e x) t x)
       .ok (env.vars ++ [t'])
     | .declz t => .ok (env.vars ++ [t])
     | .define e => do
-      let x ← domE T env none e
-      let t ← site (defineY T x) (defineG x) (if x.ty.isNil then .nilAsValue else classifyAssign x (defaultTypeY x.ty))
+      let x ← domE T env none false e
+      let t ← site (defineY T x) (defineG x) (if x.ty.isNil then .nilOperand else classifyAssign x (defaultTypeY x.ty))
       .ok (env.vars ++ [t])
     | .defineOk t e => do
-      let x ← domE T env none e
+      let x ← domE T env none false e
       let y ← site (assertY T t x) (assertG t x) (classifyAssert x)
       .ok (env.vars ++ [y.ty, .s (.basic .bool)])
     | .assign i e => match env.vars[i]? with
       | none => .stop
       | some t => do
-        let x ← domE T env (zoneOf t) e
+        let x ← domE T env (zoneOf t) false e
         let t' ← site (assignY T false (shapeOf e x) t x) (assignG false (shapeOf e x) t x) (classifyAssignStmt (shapeOf e x) t x)
         .ok (env.vars.set i t')
     | .opassign op i e => match env.vars[i]? with
       | none => .stop
       | some t => do
-        let x ← domE T env (zoneOf t) e
+        let x ← domE T env (zoneOf t) false e
         let _ ← site (opassignY T op t x) (opassignG op t x) (classifyOpAssign op t x)
         .ok env.vars
     | .shassign op i e => match env.vars[i]? with
       | none => .stop
       | some t => do
-        let x ← domE T env (zoneOf t) e
+        let x ← domE T env (zoneOf t) false e
         let _ ← site (shassignY T op t x) (shassignG op t x) (classifyShift ⟨t, .none⟩ x)
         .ok env.vars
     | .incdec i => match env.vars[i]? with
@@ -370,8 +329,8 @@ mutual
         let _ ← site (incdecY T t) (incdecG t) .other
         .ok env.vars
     | .send c e => do
-      let x ← domE T env none c
-      let y ← domE T env none e
+      let x ← domE T env none false c
+      let y ← domE T env none false e
       let _ ← site (sendY T x y) (sendG x y) (classifySend x y)
       .ok env.vars
     | .callS f args => match env.funcs[f]? with
@@ -381,13 +340,13 @@ mutual
         let _ ← site (callY T sg.params (xs.map (·.2))) (callG sg.params (xs.map (·.2))) (classifyArgs T sg.params (xs.map (·.2)))
         .ok env.vars
     | .ifS c t e => do
-      let x ← domE T env none c
+      let x ← domE T env none false c
       let _ ← domB T env t
       let _ ← domB T env e
       let _ ← site (condY T x) (condG x) (classifyCond x)
       .ok env.vars
     | .forS c b => do
-      let x ← domE T env none c
+      let x ← domE T env none false c
       let _ ← domB T env b
       let _ ← site (condY T x) (condG x) (classifyCond x)
       .ok env.vars
